@@ -1,5 +1,5 @@
 """Persistent worker for C17: rebuilds the serialization models exactly as
-scripts/generate_schema.py does (strict or lax configuration) and answers, per
+scripts/generate_schema.py does (strict or lax configuration; "default" = as imported) and answers, per
 input line {"kind": ..., "doc": ...}, whether pydantic accepts the document."""
 import json
 import sys
@@ -10,8 +10,9 @@ from hugr._serialization.extension import Extension, Package
 from hugr._serialization.serial_hugr import SerialHugr
 
 mode = sys.argv[1]
-config = ConfigDict(strict=True, extra="forbid") if mode == "strict" else ConfigDict(strict=False, extra="allow")
-SerialHugr._pydantic_rebuild(config, force=True)
+if mode != "default":  # "default": the models as imported, never rebuilt (what Hugr.load_json / Package.from_bytes use)
+    config = ConfigDict(strict=True, extra="forbid") if mode == "strict" else ConfigDict(strict=False, extra="allow")
+    SerialHugr._pydantic_rebuild(config, force=True)
 MODELS = {"SerialHugr": SerialHugr, "Package": Package, "Extension": Extension}
 print("READY", flush=True)
 for line in sys.stdin:
